@@ -143,11 +143,11 @@ EncodeValue(types, kd, node) ==
     ELSE Word(b.c, PadRight(b.v, 32))
   ELSE IF kd.k = "uint" THEN
     LET u == ClassUint(node, kd.n) IN
-    IF u.c = "reject" THEN Refuse(IF u.why = "negative" THEN "uint_negative" ELSE IF u.why = "too_large" THEN "uint_range" ELSE "wrong_kind")
+    IF u.c = "reject" THEN Refuse(IF u.why = "negative" THEN "uint_negative" ELSE IF u.why = "too_large" THEN "uint_range" ELSE u.why)
     ELSE Word(u.c, BnFixed(u.v, 32))
   ELSE IF kd.k = "int" THEN
     LET s == ClassInt(node, kd.n) IN
-    IF s.c = "reject" THEN Refuse(IF s.why = "int_range" THEN "int_range" ELSE "wrong_kind")
+    IF s.c = "reject" THEN Refuse(s.why)
     ELSE Word(s.c, IF s.neg THEN BnNeg256(s.v) ELSE BnFixed(s.v, 32))
   ELSE IF kd.k = "bool" THEN
     (IF node.k = "bool" THEN Word("accept", PadLeft(<<IF node.v THEN 1 ELSE 0>>, 32)) ELSE Refuse("wrong_kind"))
